@@ -119,7 +119,7 @@ func (c *Conversation) processDataMessageWithRawErrors(header, msg []byte) (plai
 		return
 	}
 
-	if err = c.keys.checkMessageCounter(dataMessage); err != nil {
+	if err = c.keys.counterIsFresh(dataMessage); err != nil {
 		return
 	}
 
@@ -129,6 +129,11 @@ func (c *Conversation) processDataMessageWithRawErrors(header, msg []byte) (plai
 	}
 
 	if err = dataMessage.checkSign(sessionKeys.receivingMACKey, header, c.version); err != nil {
+		return
+	}
+
+	// the counter is recorded only once the message is known to be authentic
+	if err = c.keys.checkMessageCounter(dataMessage); err != nil {
 		return
 	}
 
